@@ -281,7 +281,7 @@ pub fn dump_midi_event_meta(bin: &Vec<u8>, pos: &mut usize, info: &mut MidiReade
                 0x51 => { // tempo
                     // mpq = 60000000 / tempo || mpq * tempo = 60000000 || tempo = 60000000 / mpq
                     let mpq = (bin[p+3] as usize) << 16  | (bin[p+4] as usize) << 8 | bin[p+5] as usize;
-                    let tempo = 60000000 / mpq;
+                    let tempo = if mpq == 0 { 0 } else { 60000000 / mpq }; // mpq 0 must not panic
                     format!("Tempo={}", tempo)
                 },
                 0x58 => { // TimeSig
